@@ -227,7 +227,11 @@ func (s *Solver) CheckWith(extra ...*Term) Result {
 	s.send("(check-sat)")
 	res := s.readResult()
 	s.send("(pop 1)")
-	s.Time += time.Since(start)
+	el := time.Since(start)
+	if s.Log != nil && el > 20*time.Millisecond {
+		fmt.Fprintf(s.Log, "; SLOW %v\n", el)
+	}
+	s.Time += el
 	s.Queries[res]++
 	return res
 }
@@ -264,7 +268,11 @@ func (s *Solver) ModelWith(extra []*Term, want []*Term) (Result, []*big.Int) {
 		}
 	}
 	s.send("(pop 1)")
-	s.Time += time.Since(start)
+	el := time.Since(start)
+	if s.Log != nil && el > 20*time.Millisecond {
+		fmt.Fprintf(s.Log, "; SLOWMODEL %v\n", el)
+	}
+	s.Time += el
 	s.Queries[res]++
 	return res, vals
 }
